@@ -129,6 +129,9 @@ EXOTIC = ("\r\n", "\r", "\t", "\f", "\v", "\x00", "\u00e9", "\u03bb", " ", "\\\r
 
 
 HAND = [
+    'def f(q):\n    """Doc\n\n    :param q: the quote mark, one of ", \' or \'\'\'\n    """\n    return q\n\n\ndef g():\n    return 1\n',
+    "def f(q):\n    \'\'\'Doc\n\n    :param q: wrapped in \"\"\"\n    \'\'\'\n    return q\n",
+    "async def f(s):\n    async with s.get() as r:\n        return await r.text()\n", "async for c in s: print(c)", "async\n",
     "", "\n", "\n\n", "x", "x\n", "def f(a,\n      b):\n    '''doc'''\n    return a\n", "@dec(\n  1)\ndef f(): pass\n",
     "class A(\n    B):\n    x = 1 # c\n", "a = '''\nmulti\n'''\n", "x = 1;y = 2\n", "if x:\\\n  pass\n", "'''", '"""\n', "(", ")\n",
     "# only comment", "\t\tx\n", "\r\n", "x = [\n 1,\n 2]\n\n\n", "def f():\n    \"\"\"d\"\"\"\n", "async def f(): pass\n",
